@@ -91,6 +91,21 @@ func (sh *Shared) lookupHandler(fn *ssa.Function) handler {
 		return noop
 	case fn.Name() == "init" && fn.Pkg != nil && fn.Synthetic != "" && !runsInitPath(pkg):
 		return noop
+	case name == "(github.com/openconfig/gnmi/proto/gnmi.SubscriptionList_Mode).String":
+		return func(e *Exec, fn *ssa.Function, a []Value) Value {
+			if v, ok := a[0].(*Term).ConstInt64(); ok {
+				switch v {
+				case 0:
+					return Str{conc: "STREAM"}
+				case 1:
+					return Str{conc: "ONCE"}
+				case 2:
+					return Str{conc: "POLL"}
+				}
+				return Str{conc: fmt.Sprint(v)}
+			}
+			return opaqueStr(e, "protostring")
+		}
 	case fn.Name() == "String" && (strings.Contains(pkg, "/proto/") || strings.HasSuffix(pkg, "/proto")) && fn.Signature.Recv() != nil:
 		return func(e *Exec, fn *ssa.Function, a []Value) Value { return opaqueStr(e, "protostring") }
 	}
